@@ -329,6 +329,12 @@ def cli_deps(ctx):
         fw_ = ctx.view(path_)
         if fw_ is not None:
             rule_output_always_created(dep(ctx, "C03", "C17"), "C17.W", fw_, who_)
+    # the header line stays intact in the mapped file: rows start after its byte length, the file is sized with it
+    from . import c05, c14
+    fm_ = ctx.view(c05.MMAP)
+    if fm_ is not None:
+        c05.offset_rule(dep(ctx, "C03", "C05"), fm_)
+        c14.size_rule(dep(ctx, "C03", "C14"), fm_)
 
 
 def header_line_rule(ctx):
